@@ -89,7 +89,7 @@ def decide(spec, tier, seed):
     results = []
     if ok and os.path.exists(core.DRIVER):
         for st in spec.streams(tier, rng):
-            r = core.run_stream(st.name, st.requests, workdir, compare=st.compare, weight=st.weight)
+            r = core.run_stream(st.name, st.requests, workdir, compare=st.compare, weight=st.weight, groups=getattr(st, 'groups', None))
             if r.mismatches and st.refine:
                 r.mismatches = st.refine(r.mismatches)
             r.meta = st
